@@ -2152,7 +2152,11 @@ func (m *metadataAPI) checkShrinkISRPreconditions(op *proto.RaftLog) error {
 	}
 	// The leader epoch is checked again here because this runs while
 	// proposals are serialized and the FSM is up to date.
-	return checkLeaderEpoch(m.GetPartition(req.Stream, req.Partition), req.Leader, req.LeaderEpoch)
+	partition := m.GetPartition(req.Stream, req.Partition)
+	if err := checkLeaderEpoch(partition, req.Leader, req.LeaderEpoch); err != nil {
+		return err
+	}
+	return checkIsReplica(partition, req.ReplicaToRemove)
 }
 
 // checkExpandISRPreconditions checks if the partition whose ISR is being
@@ -2165,7 +2169,24 @@ func (m *metadataAPI) checkExpandISRPreconditions(op *proto.RaftLog) error {
 		return err
 	}
 	// See checkShrinkISRPreconditions.
-	return checkLeaderEpoch(m.GetPartition(req.Stream, req.Partition), req.Leader, req.LeaderEpoch)
+	partition := m.GetPartition(req.Stream, req.Partition)
+	if err := checkLeaderEpoch(partition, req.Leader, req.LeaderEpoch); err != nil {
+		return err
+	}
+	return checkIsReplica(partition, req.ReplicaToAdd)
+}
+
+// checkIsReplica returns an error if the given server is not a replica of the
+// partition. An ISR change naming such a server must not be committed: every
+// server fails to apply it and panics, and does so again whenever it replays
+// the Raft log.
+func checkIsReplica(partition *partition, id string) error {
+	for _, replica := range partition.GetReplicas() {
+		if replica == id {
+			return nil
+		}
+	}
+	return fmt.Errorf("%s is not a replica of partition %s", id, partition)
 }
 
 // checkLeaderEpoch returns an error if the partition's current leader and
